@@ -517,6 +517,34 @@ def _unrelated(rng):
                        "(Un @arg -> w)", "(Leaf @s -> v @v)", "(Mixed @a @z -> it @items)"])
 
 
+def regex_dont_care(p, v) -> bool:
+    """does matching pattern AST `p` against object `v` put a quoted regex against a node- or tuple-valued field / element
+    (a don't-care point of C08: the statement defines regexes on str(value) of property values)?  Only positions the
+    matcher can reach are looked at (nested patterns are followed into the objects they are matched against)."""
+    if not isinstance(v, ASTNode):
+        return False
+    _, _cls, fields = p
+    for name, spec, _cap in fields:
+        if spec is None or not hasattr(v, name):
+            continue
+        x = getattr(v, name)
+        if spec[0] == "val":
+            val = spec[1]
+            if val[0] == "re" and isinstance(x, (ASTNode, tuple)):
+                return True
+            if val[0] == "tree" and regex_dont_care(val[1], x):
+                return True
+        else:
+            items = spec[1]
+            if isinstance(x, tuple):
+                for (val, _ic), e in zip(items, x):
+                    if val[0] == "re" and isinstance(e, (ASTNode, tuple)):
+                        return True
+                    if val[0] == "tree" and regex_dont_care(val[1], e):
+                        return True
+    return False
+
+
 def batch(rng, tier):
     """one tree, several (pattern, node) and multi cases, observed under three histories"""
     global N_OK, N_TRUE
@@ -534,7 +562,7 @@ def batch(rng, tier):
         node = root if rng.random() < 0.6 else rng.choice(nodes)
         src = node if rng.random() < 0.93 else rng.choice(nodes)
         p = g.pat(src, 1)
-        if g.skip:
+        if g.skip or (src is not node and regex_dont_care(p, node)):
             continue
         text = render(rng, tokens_of(p), spaced=rng.random() < 0.8)
         line = dumps([A("pmatch")] + env + [[A("text"), text], [A("node"), toks.tok(node)]])
@@ -549,7 +577,7 @@ def batch(rng, tier):
             g = PGen(rng, deviate=0.3)
             src = node if rng.random() < 0.8 else rng.choice(nodes)
             p = g.pat(src, 2)
-            skip = skip or g.skip
+            skip = skip or g.skip or (src is not node and regex_dont_care(p, node))
             for k, v in g.kinds.items():
                 if kinds.setdefault(k, v) != v:
                     kinds[k] = "mixed"
